@@ -15,7 +15,11 @@
      record the read set handed to the solver = union of the members' SELECTED reads, accessible positions, family stage
      (`c03.family`), read-list rows; per run the composed model `c03.pipeline` (selected reads -> family stage -> C04 writer ->
      C09 decoders) = decoded phase statement of every call of the output VCF; oracle (BFS over the selected reads) on the
-     output VCF and the read list.
+     output VCF and the read list.  A second part of this stream re-phases VCFs that ALREADY carry the phasing of an earlier
+     run (PS and/or HP on every record kind, also on the kinds the run skips: multi-ALT, duplicate positions, no ALT, non-SNVs
+     under --only-snvs; old ids equal to / different from new set ids): every phased call of the output, whatever the record
+     kind, is a member of the set it names — a record that is no variant of the run is covered by no used read and may neither
+     share a set with another call (`same-set-iff-connected`) nor be phased on its own (`phased-but-not-accessible`).
 """
 import json, os, shutil
 
@@ -746,6 +750,18 @@ def eligible_first(recs, only_snvs):
     return out
 
 
+def skip_kind(recs, i, only_snvs):
+    """why neither reader nor writer look at record i"""
+    r = recs[i]
+    if not r["alts"]:
+        return "no-ALT"
+    if len(r["alts"]) > 1:
+        return "multi-allelic"
+    if only_snvs and not (len(r["ref"]) == 1 and len(r["alts"][0]) == 1):
+        return "non-SNV (--only-snvs)"
+    return "duplicate-position"
+
+
 def run_pipe(ctx, batch, case):
     from harness.gen import sim, c03_pipe as P, c04_records as R
     p = case["params"]
@@ -762,7 +778,7 @@ def run_pipe(ctx, batch, case):
         ctx.dist("pipe_options", "".join(ch for ch, k in (("D", "distrust"), ("H", "include_hom"), ("G", "no_genetic"), ("S", "only_snvs"),
                                                            ("C", "chrom_sel"), ("s", "sample_sel"), ("L", "read_list"), ("I", "ignore_rg"),
                                                            ("M", "merge_reads"), ("V", "phased_vcf_input"), ("N", "dup_names"),
-                                                           ("d", "decor")) if p[k]) or "-")
+                                                           ("d", "decor"), ("R", "rephase")) if p.get(k)) or "-")
         if rc != 0:
             last = (se.strip().splitlines() or ["?"])[-1][:200]
             if "duplicate read name" in se and p["dup_names"]:
@@ -803,6 +819,7 @@ def check_pipe(ctx, batch, case, sc, samples, rin, rout, trace, stderr, read_row
     rl_pos = 0
     fam_json = {}
     n_sets_total, split_any, dropped_any = 0, False, False
+    n_prephased_skipped, prephased_hit = 0, False
     for ti, t in enumerate(trace):
         fam, ids, chrom = t["family"], t["numeric_sample_ids"], t["chromosome"]
         acc = t["accessible_positions"]
@@ -879,14 +896,22 @@ def check_pipe(ctx, batch, case, sc, samples, rin, rout, trace, stderr, read_row
             if len(rows_here) != n_reads:
                 ctx.fail(f"{chrom} {fam}: read list has {len(rows_here)} rows for {n_reads} reads used for phasing", case, key="read-list-row")
         sets_here = set()
+        comp_names = set(left.values())
         for s in fam:
             sr = t["superreads"][s]
             sr_al = {a[0]: (a[1], b[1]) for a, b in zip(sr[0]["variants"], sr[1]["variants"])}
-            items = []
+            items, stale = [], []
+            n_old = 0
             for i, r in enumerate(min_rout):
                 if rin[i]["chrom"] != chrom:
                     continue
                 ph = decode_call(r["calls"][sidx[s]], r["format"])
+                if i not in elig:
+                    old = decode_call(min_rin[i]["calls"][sidx[s]], min_rin[i]["format"])
+                    if old is not None:
+                        n_old += 1
+                        if old[0] is not None and (old[0] - 1) in comp_names:
+                            prephased_hit = True
                 pos = r["pos"]
                 al = sr_al.get(pos)
                 is_het = al is not None and sorted(al) == [0, 1]
@@ -896,7 +921,9 @@ def check_pipe(ctx, batch, case, sc, samples, rin, rout, trace, stderr, read_row
                                  f"in the output", case, key="het-accessible-not-phased")
                     continue
                 if i not in elig:
-                    continue        # a phase mark on a record the writer skips is C04's subject (stale-mark)
+                    # a record the run does not look at (no read used for phasing covers it as a variant) that is nevertheless
+                    # a phased call of the output: it is a member of the phase set it names, whatever the record kind
+                    stale.append((i, pos, ph[0])); continue
                 if not is_het:
                     ctx.fail(f"sample {s}: {chrom}:{pos + 1} is phased in the output although its super-read alleles are {al}", case,
                              key="phased-but-superread-not-het")
@@ -910,6 +937,25 @@ def check_pipe(ctx, batch, case, sc, samples, rin, rout, trace, stderr, read_row
                              key="ps-not-leftmost-connected")
                     break
                 items.append((pos, ph[0]))
+            if stale:
+                phased_all = [(k, rin[k]["pos"], decode_call(r["calls"][sidx[s]], r["format"])) for k, r in enumerate(min_rout)
+                              if rin[k]["chrom"] == chrom]
+                def mates_of(i, ps):
+                    m = [(k, q) for k, q, x in phased_all if k != i and x is not None and x[0] == ps]
+                    return sorted({q + 1 for k, q in m if k in elig}), sorted({q + 1 for k, q in m if k not in elig})
+                # report the most telling one: a stale call that sits in a phase set of variants of this run
+                i, pos, ps = ([x for x in stale if mates_of(x[0], x[2])[0]] or [x for x in stale if mates_of(x[0], x[2])[1]] or stale)[0]
+                m_run, m_skip = mates_of(i, ps)
+                what = f"sample {s}: the {skip_kind(rin, i, p['only_snvs'])} record at {chrom}:{pos + 1} (record {i}) is not a variant of " \
+                       f"the run (no read used for phasing covers it) but is a phased call of the output, phase set {ps}"
+                if m_run or m_skip:
+                    ctx.fail(what + ", which it shares with " + " and ".join(
+                                 ([f"the variant(s) of the run at {m_run[:6]}"] if m_run else []) +
+                                 ([f"other skipped record(s) at {m_skip[:6]}"] if m_skip else [])) +
+                             ": they are in the same phase set but not linked by reads used for phasing", case, key="same-set-iff-connected")
+                else:
+                    ctx.fail(what, case, key="phased-but-not-accessible")
+            n_prephased_skipped += n_old
             for a in range(len(items)):
                 for b in range(a + 1, len(items)):
                     (p1, s1), (p2, s2) = items[a], items[b]
@@ -980,6 +1026,12 @@ def check_pipe(ctx, batch, case, sc, samples, rin, rout, trace, stderr, read_row
     ctx.dist("pipe_selection_split_components", split_any); ctx.dist("pipe_reads_dropped_by_selection", dropped_any)
     ctx.dist("pipe_chromosomes_phased", len(by_chrom))
     ctx.dist("pipe_skipped_records", min(len(rin) - len(elig), 10))
+    rp = p.get("rephase")
+    ctx.dist("pipe_rephased_input", "-" if not rp else f"{rp['enc']}/{rp['ids']}")
+    # input calls of samples phased in this run that carry an OLD phase statement on a record the run skips, and whether such
+    # an old id names a component of the new run (the situation in which a stale call would join a new phase set)
+    ctx.dist("pipe_prephased_calls_on_skipped_records", min(n_prephased_skipped // 5 * 5, 60))
+    ctx.dist("pipe_old_id_on_skipped_record_names_new_component", prephased_hit)
     if len(ctx.samples) < 6:
         ctx.sample({"pipe_params": p, "n_trace_records": len(trace), "phase_sets": n_sets_total})
 
@@ -1041,6 +1093,10 @@ def run(ctx):
     from harness.gen import c03_pipe as P
     for _ in range((20 if ctx.quick else 200) * ctx.scale):
         run_pipe(ctx, batch, P.gen_case(rng))
+    batch.flush()
+    # re-phasing: the input is the output of an earlier run (PS / HP on every record kind, also on the kinds this run skips)
+    for _ in range((14 if ctx.quick else 140) * ctx.scale):
+        run_pipe(ctx, batch, P.gen_case(rng, rephase=True))
     batch.flush()
     G.assert_overlay_in_use(ctx.overlay)
     shutil.rmtree(ctx.workdir(), ignore_errors=True)
